@@ -946,6 +946,7 @@ func c04APIRecipe(sub uint64) (c04Builder, string) {
 		sheets = append(sheets, "S2")
 	}
 	n := rng.Range(3, 25)
+	rects := map[string][][4]int{}
 	var ops []opT
 	var desc []string
 	floats := []float64{1.0000000000000002, 1e21, 0.1, 123456789.123456789, 1234567890123456789, 2.5, -7, 1e-7, 100, 3.14159}
@@ -972,7 +973,21 @@ func c04APIRecipe(sub uint64) (c04Builder, string) {
 		case k < 11:
 			o.kind, o.ival = "style", rng.Range(1, 3) // styled-but-empty (or restyled) cell
 		case k < 12:
-			o.kind, o.cell2 = "merge", c04Name(c+rng.Range(0, 2), ro+rng.Range(0, 2))
+			// merged ranges stay disjoint (overlapping ranges are outside C03's invariant; the
+			// GetMergeCells finding on them is reproduced by the witness "overlap-merge")
+			c2, r2 := c+rng.Range(0, 2), ro+rng.Range(0, 2)
+			clash := false
+			for _, m := range rects[sh] {
+				if c <= m[2] && m[0] <= c2 && ro <= m[3] && m[1] <= r2 {
+					clash = true
+				}
+			}
+			if clash {
+				o.kind, o.sval = "str", "a"
+			} else {
+				rects[sh] = append(rects[sh], [4]int{c, ro, c2, r2})
+				o.kind, o.cell2 = "merge", c04Name(c2, r2)
+			}
 		case k < 13:
 			o.kind, o.ival = "rowhide", ro
 		case k < 14:
@@ -1243,9 +1258,13 @@ func c04RandomRead(rng *Rng, sheets []string) c04Read {
 			}()
 		})
 	case 50:
-		return mk(fmt.Sprintf("GetStyle(%d)/GetConditionalStyle/GetDefaultFont/GetBaseColor", idx), func(f *xl.File) string {
+		return mk(fmt.Sprintf("GetStyle(%d)/GetConditionalStyle/GetDefaultFont", idx), func(f *xl.File) string {
+			return c04Fmt(f.GetStyle(idx)) + c04Fmt(f.GetConditionalStyle(idx)) + c04Fmt(f.GetDefaultFont())
+		})
+	case 51:
+		return mk(fmt.Sprintf("GetBaseColor(%d)", idx), func(f *xl.File) string {
 			th := idx
-			return c04Fmt(f.GetStyle(idx)) + c04Fmt(f.GetConditionalStyle(idx)) + c04Fmt(f.GetDefaultFont()) + f.GetBaseColor("", idx, &th) + f.GetBaseColor("FF0000", -1, nil)
+			return f.GetBaseColor("", idx, &th) + f.GetBaseColor("FF0000", -1, nil) + f.GetBaseColor("", idx, nil)
 		})
 	default:
 		return mk(fmt.Sprintf("GetCellValue(%q,%q)", sheet, cell), func(f *xl.File) string { return c04Fmt(f.GetCellValue(sheet, cell)) })
@@ -1555,6 +1574,24 @@ func c04Witness(r *Run, name string) {
 			}
 			f.Close()
 		}
+	case "basecolor":
+		f := xl.NewFile()
+		defer f.Close()
+		if _, p := c04Call(func() string { return f.GetBaseColor("", -1, nil) }); p {
+			r.Fail("nopanic:GetBaseColor", "GetBaseColor(\"\", -1, nil) panics", 0, replay)
+		}
+	case "overlap-merge": // open finding: GetMergeCells normalises overlapping ranges in place
+		f := xl.NewFile()
+		defer f.Close()
+		f.SetCellValue("Sheet1", "E7", "v")
+		f.MergeCell("Sheet1", "D8", "F10")
+		f.MergeCell("Sheet1", "B7", "D9")
+		v1, _ := f.GetCellValue("Sheet1", "E7")
+		m, _ := f.GetMergeCells("Sheet1")
+		v2, _ := f.GetCellValue("Sheet1", "E7")
+		if v1 != v2 {
+			r.Fail("purity:obs:GetMergeCells:overlapping-merges", fmt.Sprintf("merged ranges D8:F10 and B7:D9 overlap; GetCellValue(E7)=%q; GetMergeCells (%d range); GetCellValue(E7)=%q", v1, len(m), v2), 0, replay)
+		}
 	case "search-panic":
 		f := xl.NewFile()
 		defer f.Close()
@@ -1591,7 +1628,7 @@ func runC04(r *Run, rng *Rng, replay string) {
 	// coverage of the getter list
 	r.Notes = append(r.Notes, fmt.Sprintf("read batch draws from %d exported read functions", len(c04Covered)))
 	// 0. witnesses (deterministic)
-	for _, w := range []string{"raw-rewrite", "materialise", "search-panic"} {
+	for _, w := range []string{"raw-rewrite", "materialise", "search-panic", "basecolor", "overlap-merge"} {
 		c04Witness(r, w)
 	}
 	for _, k := range []string{"rless-mixed", "missing-r-search"} {
@@ -1610,8 +1647,8 @@ func runC04(r *Run, rng *Rng, replay string) {
 		c04XMLCase(r, NewRng(2), d, "boundary")
 	}
 	// 2. generated descriptions: transcript + agreement + caching purity
-	nx := 700
-	nb := 160
+	nx := 1000
+	nb := 240
 	if thorough {
 		nx, nb = 20000, 5000
 	}
